@@ -13,7 +13,10 @@ def _run(seed):
         drivers.deep_book_history(seed)
         return
     rng = random.Random(seed)
-    m = drivers.mk_market()
+    fine = seed % 8 == 2          # a fine tick grid: level * tick is not exactly representable, quotients k*tick/tick may differ from k in floating point
+    tick = rng.choice([0.01, 0.1, 1e-5]) if fine else 1.0
+    base = int(round(300.0 / tick))
+    m = drivers.mk_market(tick=tick, price=300.0) if fine else drivers.mk_market()
     continuous = seed % 2 == 0
     m._is_running = continuous
     live = []
@@ -22,7 +25,8 @@ def _run(seed):
         if r < 0.75:
             mkt = rng.random() < 0.3
             o = Order(agent_id=0, market_id=0, is_buy=rng.random() < 0.5, kind=MARKET_ORDER if mkt else LIMIT_ORDER, volume=rng.randint(1, 3),
-                      price=None if mkt else float(rng.randint(8, 12)), ttl=rng.choice([None, 1, 2]))
+                      price=None if mkt else (float(rng.randint(8, 12)) if not fine else (base + rng.randint(-2, 2)) * tick + rng.choice([0.0, 0.0, 0.3 * tick, -0.3 * tick])),
+                      ttl=rng.choice([None, 1, 2]))
             m._add_order(o); live.append(o)
         elif r < 0.85 and live:
             o = rng.choice(live)
